@@ -822,6 +822,51 @@ theorem resolveBs_ok_eq_lift (rs : Str → Res) : ∀ (xs ys : List (Option Nat 
         rw [resolve_ok_eq_lift rs x y hx, resolveBs_ok_eq_lift rs xs ys' hl]
 end
 
+/-! ### Go ranges over the map in an unspecified order -/
+
+theorem mem_allTmplsKvs (kvs : List (String × Doc)) (p : Str × Bool) :
+    p ∈ allTmplsKvs kvs ↔ ∃ kv ∈ kvs, p ∈ allTmpls kv.2 := by
+  induction kvs with
+  | nil => simp [allTmplsKvs]
+  | cons kv kvs ih => obtain ⟨k, x⟩ := kv; simp [allTmplsKvs, ih]
+
+theorem liftKvs_eq_map (f : Str → Str) (kvs : List (String × Doc)) :
+    liftKvs f kvs = kvs.map (fun kv => (kv.1, liftStrs f kv.2)) := by
+  induction kvs with
+  | nil => simp [liftKvs]
+  | cons kv kvs ih => obtain ⟨k, x⟩ := kv; simp [liftKvs, ih]
+
+/-- `parseTemplatedElements` visits the entries of a map in Go's (random) iteration order and
+stops at the first error. Whether it fails, and the entries it produces, do not depend on that
+order (the model takes the order as an arbitrary permutation of the entries). -/
+theorem resolveKvs_order_independent (env : Env) (kvs kvs' : List (String × Doc))
+    (h : kvs.Perm kvs') :
+    (∀ e, resolveKvsWith (resolveStr env) kvs = .error e ↔
+      resolveKvsWith (resolveStr env) kvs' = .error e) ∧
+    (∀ ys, resolveKvsWith (resolveStr env) kvs = .ok ys →
+      ∃ ys', resolveKvsWith (resolveStr env) kvs' = .ok ys' ∧ ys.Perm ys') := by
+  have hmem : ∀ p, p ∈ allTmplsKvs kvs ↔ p ∈ allTmplsKvs kvs' := by
+    intro p
+    rw [mem_allTmplsKvs, mem_allTmplsKvs]
+    constructor
+    · rintro ⟨kv, hk, hp⟩; exact ⟨kv, h.mem_iff.1 hk, hp⟩
+    · rintro ⟨kv, hk, hp⟩; exact ⟨kv, h.mem_iff.2 hk, hp⟩
+  rcases resolveKvs_outcome env kvs with ⟨⟨ys, hy⟩, hok⟩ | ⟨he, n, hn, hv⟩
+  · rcases resolveKvs_outcome env kvs' with ⟨⟨ys', hy'⟩, _⟩ | ⟨_, n, hn, hv⟩
+    · rw [hy, hy']
+      refine ⟨by intro e; simp, ?_⟩
+      intro zs hz
+      cases hz
+      refine ⟨ys', rfl, ?_⟩
+      rw [resolveKvs_ok_eq_lift _ kvs ys hy, resolveKvs_ok_eq_lift _ kvs' ys' hy',
+        liftKvs_eq_map, liftKvs_eq_map]
+      exact h.map _
+    · exact absurd hv (hok n ((hmem _).2 hn))
+  · rcases resolveKvs_outcome env kvs' with ⟨_, hok⟩ | ⟨he', _⟩
+    · exact absurd hv (hok n ((hmem _).1 hn))
+    · rw [he, he']
+      exact ⟨by intro e; simp, by intro ys hys; cases hys⟩
+
 /-! ### `FromBytes`: reduce, then substitute -/
 
 /-- **C16, documents (1).** When loading succeeds, the result is the selected tree with every
